@@ -1,6 +1,7 @@
 /- Helper lemmas about the compaction record (floor), used by C08. -/
 import KB.Backend
 import KB.Lemmas.Coder
+import KB.Lemmas.Pass
 namespace KB
 open Generated
 
@@ -261,21 +262,12 @@ theorem runDeletes_keeps_get {mask : Nat → DelOutcome} {k0 v : Bytes} (acts : 
     exact ih (fun x hx => ha x (List.mem_cons_of_mem _ hx)) _
       (runDelete_keeps_get (ha a (List.mem_cons_self ..)) hg)
 
-theorem expireStep_avoids {c : WCfg} {k0 : Bytes} (r : Rec) (hr : r.ik ≠ k0) (acts : List Act)
-    (h : expireStep c r = some acts) : ∀ a ∈ acts, a.avoids k0 := by
-  unfold expireStep at h
-  repeat' split at h
-  all_goals cases h <;> simp [Act.avoids, hr]
-
 theorem workerStep_avoids {c : WCfg} {k0 : Bytes} (hk : ∀ k rv, encode k rv ≠ k0) (p : Prev) (r : Rec)
     (hr : r.ik ≠ k0) : ∀ a ∈ (workerStep c p r).1, a.avoids k0 := by
   unfold workerStep
-  cases he : expireStep c r with
-  | some acts => exact expireStep_avoids r hr acts he
-  | none =>
-    simp only [emitPrev]
-    repeat' split
-    all_goals simp [Act.avoids, hr, hk]
+  simp only [emitPrev]
+  repeat' split
+  all_goals simp [Act.avoids, hr, hk]
 
 theorem workerLoop_avoids {c : WCfg} {k0 : Bytes} (hk : ∀ k rv, encode k rv ≠ k0) (recs : List Rec)
     (hr : ∀ r ∈ recs, r.ik ≠ k0) (p : Prev) : ∀ a ∈ workerLoop c p recs, a.avoids k0 := by
@@ -310,6 +302,52 @@ theorem workerActs_avoids (c : Cfg) (w : WCfg) (l : List (Bytes × Bytes)) (recs
     (h : decodeRecs l = some recs) : ∀ a ∈ workerActs w recs, a.avoids (compactKeyOf c) :=
   workerLoop_avoids (fun k rv => compactKey_ne_encode c k rv) recs
     (fun r hr => ne_compactKey_of_decode (decodeRecs_decoded l recs h r hr)) _
+
+/-- the same for the loop with expiry: whatever it remembers and whatever the outcomes of its delete calls -/
+theorem passLoop_avoids {c : WCfg} {k0 : Bytes} (hk : ∀ k rv, encode k rv ≠ k0) (mask : Nat → DelOutcome)
+    (recs : List Rec) (hr : ∀ r ∈ recs, r.ik ≠ k0) (p : Prev) (live : Bytes) (st : CompState) :
+    ∀ a ∈ (passLoop c mask p live st recs).1, a.avoids k0 := by
+  induction recs generalizing p live st with
+  | nil => simp only [passLoop, emitPrev]; split <;> simp [Act.avoids]
+  | cons r rs ih =>
+    have hr0 := hr r (List.mem_cons_self ..)
+    have hrs : ∀ x ∈ rs, x.ik ≠ k0 := fun x hx => hr x (List.mem_cons_of_mem _ hx)
+    rw [passLoop_cons]
+    cases expiry c live r with
+    | panic =>
+      intro a ha
+      rcases List.mem_cons.1 ha with rfl | ha
+      · trivial
+      · exact ih hrs _ _ _ a ha
+    | idx =>
+      intro a ha
+      rcases List.mem_cons.1 ha with rfl | ha
+      · exact hr0
+      · exact ih hrs _ _ _ a ha
+    | ver =>
+      intro a ha
+      rcases List.mem_cons.1 ha with rfl | ha
+      · exact hr0
+      · exact ih hrs _ _ _ a ha
+    | noLive =>
+      intro a ha
+      rcases List.mem_append.1 ha with ha | ha
+      · exact workerStep_avoids hk p r hr0 a ha
+      · exact ih hrs _ _ _ a ha
+    | no =>
+      intro a ha
+      rcases List.mem_append.1 ha with ha | ha
+      · exact workerStep_avoids hk p r hr0 a ha
+      · exact ih hrs _ _ _ a ha
+
+theorem passRun_keeps_get (c : Cfg) (w : WCfg) (mask : Nat → DelOutcome) (l : List (Bytes × Bytes))
+    (recs : List Rec) (h : decodeRecs l = some recs) (st : CompState) {v : Bytes}
+    (hg : st.store.get (compactKeyOf c) = some v) :
+    (passRun w mask st recs).2.store.get (compactKeyOf c) = some v := by
+  unfold passRun
+  rw [passLoop_run]
+  exact runDeletes_keeps_get _ (passLoop_avoids (fun k rv => compactKey_ne_encode c k rv) mask recs
+    (fun r hr => ne_compactKey_of_decode (decodeRecs_decoded l recs h r hr)) _ _ _) _ hg
 
 theorem take8_be8 (r : Nat) : (be8 r).take 8 = be8 r := by
   apply List.take_of_length_le; simp [be8, be64]
@@ -364,7 +402,7 @@ theorem compactRange_floor (c : Cfg) (s : BState) (a b : Bytes) (rev : Nat) (mas
       cases hd : decodeRecs (iterate c.q store p.1 p.2 0) with
       | none => exact hacc
       | some recs =>
-        exact runDeletes_keeps_get _ (workerActs_avoids c _ _ recs hd) _ hacc
+        exact passRun_keeps_get c _ mask _ recs hd _ hacc
     · exact hv
 
 /-- the revision `Backend.Compact` actually compacts at -/
